@@ -13,9 +13,10 @@ import CalVerif.Model.Xlsb
                      the Lbl / ExternSheet arms        → `parseLbl`, `parseExternSheet`
                      the globals loop of `parse_workbook` → `xlsStep`, `xlsGlobals`; the defined-name post-processing → `resolveName`;
                                                           the whole → `parseWorkbookXls`
-      `xlsb/mod.rs`  `read_workbook` first loop        → `bundleSh`, `xlsbLoop1`
-                     second loop (BrtExternSheet, BrtName) → `externSheets`, `brtName`, `xlsbLoop2`; the whole → `readWorkbookXlsb`
-      `xlsx/mod.rs`  `read_workbook`                   → `xlsxLoop` over an XML event list (quick-xml trusted)
+      `xlsb/mod.rs`  `read_workbook` first loop        → `bundleSh`, `xlsbLoop1` (after fix 889c07c, finding C16-a; `…Pinned` = the pinned snapshot)
+                     second loop (BrtExternSheet, BrtName) → `externLoop`, `brtName`, `xlsbLoop2With`; the whole → `readWorkbookXlsb`
+      `xlsx/mod.rs`  `read_workbook`                   → `xlsxLoop` over an XML event list (quick-xml trusted; after fixes D22, D23, D27;
+                                                          `xlsxLoopD22` = the pinned `workbookPr` test)
       `ods.rs`       `parse_content` (metadata part), `read_named_expressions` → `odsLoop` over an XML event list
 
     Shared layers are imported, not re-modelled: BIFF record framing and short strings (`Biff.nextRecord`,
